@@ -9,6 +9,7 @@ pub mod clocksys;
 pub mod clocktear;
 pub mod mixer;
 pub mod fxa;
+pub mod fxb;
 pub mod param;
 pub mod srate;
 pub mod system;
@@ -50,6 +51,7 @@ pub fn gen(suite: &str, rng: &mut Rng, n: usize, thorough: bool, stats: &mut Sta
 		"mixtrk" => mixer::gen(rng, n, thorough, stats, mixer::Mode::Tracks),
 		"mixpart" => mixer::gen(rng, n, thorough, stats, mixer::Mode::Partition),
 		"fxa" => fxa::gen(rng, n, thorough, stats),
+		"fxb" => fxb::gen(rng, n, thorough, stats),
 		_ => panic!("unknown suite {}", suite),
 	}
 }
@@ -76,6 +78,7 @@ pub fn run(suite: &str, ops: &[String]) -> Vec<String> {
 		"mixtrk" => mixer::run(ops, mixer::Mode::Tracks),
 		"mixpart" => mixer::run(ops, mixer::Mode::Partition),
 		"fxa" => fxa::run(ops),
+		"fxb" => fxb::run(ops),
 		_ => panic!("unknown suite {}", suite),
 	}
 }
